@@ -501,7 +501,8 @@ class C13Purity(Oracle):
         env = ctx.env
         # the environment's own current state is deliberately a DIFFERENT reachable state
         par = ctx.parent.get(key)
-        first = self.states[next(iter(self.states))]
+        # (no state expanded yet: the zero-deviation walk of a path-bounded scenario comes before the expansion)
+        first = self.states[next(iter(self.states))] if self.states else env.current_state
         if side == "above" and par is not None:
             c = self.states.get(par[0], first)
         else:
